@@ -64,6 +64,34 @@ CHECKS = {
         "and SQLite; writes use canonical or prefix-less titles only.",
         "DESIGN.md 5/C10",
     ),
+    "C13": (
+        "exploration",
+        "property-based differential testing against the reference "
+        "interpreter with the documented selection rule; hook call-log "
+        "comparison",
+        "Generated (library, page, configuration) triples: the real expand() "
+        "output under pre_expand / templates_to_expand / "
+        "templates_to_not_expand / flags / switches / hooks must equal the "
+        "reference output, the sequence of template_fn calls must equal the "
+        "reference call log, and nothing-selected pages must come back "
+        "unchanged. Sampled search, not exhaustive.",
+        "Trusts refs/transclude.py's selection model (taken from the expand() "
+        "docstring); parser-function arguments under a selection are "
+        "text-only.",
+        "DESIGN.md 5/C13",
+    ),
+    "C16": (
+        "exploration",
+        "property-based invariant checking over call histories on one page "
+        "(Hypothesis pages x option grid x repetition counts)",
+        "After every returning expand()/parse() call the expansion path must "
+        "equal its value before the call, repeated up to 300 times per page "
+        "over all option combinations, with Lua errors, loops and disabled "
+        "switches inside; message records are checked field by field.",
+        "Trusts the Lua stand-in library files under fixtures/lua; calls that "
+        "raise are skipped (C05).",
+        "DESIGN.md 5/C16",
+    ),
 }
 
 NOT_YET = "check not built yet in this round (planned in DESIGN.md section 5)"
